@@ -358,7 +358,7 @@ class ObjRec:
 
 class ListRec:
     """concrete prefix-free list: python list of SVs; or symbolic: length term + element array/opaque"""
-    __slots__ = ("items", "length", "elem", "arr", "sym", "farr", "cnt", "shift")
+    __slots__ = ("items", "length", "elem", "arr", "sym", "farr", "cnt", "shift", "sums", "preds", "origin", "parts")
 
     def __init__(self, items=None, length=None, elem=("any",), arr=None, sym=None):
         self.items = items          # list[SV] when concrete, else None
@@ -368,6 +368,10 @@ class ListRec:
         self.sym = sym
         self.farr = {}              # obj element type: field -> z3 Array(Int -> sort)
         self.shift = 0              # obj element lists: element i is the symbolic object `sym[i + shift]`
+        self.sums = {}              # ghost sums: canonical element expression -> z3 Real (sum over all elements)
+        self.origin = None          # (source list sym, [filter texts]) for lists produced by a filter comprehension
+        self.parts = None           # (oid_a, oid_b) for a concatenation of two symbolic lists
+        self.preds = []             # element-wise facts known for every element (canonical predicate texts over `x`)
         self.cnt = {}               # ghost counters: name -> z3 Int (number of elements satisfying a registered predicate)
 
     @property
@@ -379,6 +383,10 @@ class ListRec:
         r.farr = dict(self.farr)
         r.cnt = dict(self.cnt)
         r.shift = self.shift
+        r.sums = dict(self.sums)
+        r.preds = list(self.preds)
+        r.origin = self.origin
+        r.parts = self.parts
         return r
 
 
